@@ -1,11 +1,11 @@
-(* C02, part F: the refutation witness for capacity-counting completeness, and the relation between runs and sent messages. *)
+(* C02, part F: the former counter-example to capacity-counting completeness (now a regression witness), and the relation between runs and sent messages. *)
 From Coq Require Import ZArith List Bool Lia Permutation.
 From N2kV Require Import Base.ListAux Model.CanId Model.Sched Model.PgnClass Model.NodeDefs Model.NodeRxDefs Gen.GenTables Gen.GenConsts
   Spec.SendSpec Spec.RxSpec Proofs.SendProofs Proofs.RxProofsA Proofs.RxProofsB Proofs.RxProofsC Proofs.RxProofsD Proofs.RxProofsE.
 Import ListNotations.
 Local Open Scope Z_scope.
 
-(* ---------------- completeness by counting keys is false: the stale duplicate slot ---------------- *)
+(* ---------------- the former counter-example to completeness by counting keys (stale duplicate slot) ---------------- *)
 Definition wit_cfg : rcfg :=
   {| c_only_known := false; c_iso_handler := None; c_prodinfo := []; c_confinfo := []; c_hb_on := false;
      c_inst1 := []; c_inst2 := []; c_manuf := []; c_inst_changed := false |}.
@@ -15,27 +15,20 @@ Definition wit_q : list rxframe :=
   [ mkf wit_x [0; 10; 0; 1; 2; 3; 4; 5];           (* sender 10, message 1, frame 0 *)
     mkf wit_k [0; 10; 20; 21; 22; 23; 24; 25];     (* sender 11, message 1, frame 0 - its second frame is lost *)
     mkf wit_x [1; 6; 7; 8; 9; 255; 255; 255];      (* sender 10, message 1 complete: its slot (0) is freed *)
-    mkf wit_k [32; 10; 40; 41; 42; 43; 44; 45];    (* sender 11, message 2, frame 0: stored in slot 0, BELOW the stale slot 1 *)
-    mkf wit_x [32; 10; 60; 61; 62; 63; 64; 65];    (* sender 10, message 2, frame 0: both slots taken - refused *)
+    mkf wit_k [32; 10; 40; 41; 42; 43; 44; 45];    (* sender 11, message 2, frame 0: formerly stored in slot 0, below the stale slot 1; now it takes slot 1 over *)
+    mkf wit_x [32; 10; 60; 61; 62; 63; 64; 65];    (* sender 10, message 2, frame 0: formerly refused (both slots taken) *)
     mkf wit_k [33; 46; 47; 48; 49; 255; 255; 255]; (* sender 11, message 2 complete *)
-    mkf wit_x [33; 66; 67; 68; 69; 255; 255; 255]  (* sender 10, message 2, last frame: orphan *) ].
+    mkf wit_x [33; 66; 67; 68; 69; 255; 255; 255]  (* sender 10, message 2, last frame *) ].
 Definition wit_node : rnode :=
   with_rxq (with_open (cold_node true 0 5000 40 2 no_lists [mk_dev true 22 1 []] [[]] wit_cfg) 3 0) wit_q.
 
-Theorem rx_complete_refuted : rx_complete_refuted_stmt.
-Proof.
-  exists wit_node, wit_q, {| m_pri := 3; m_pgn := 129029; m_src := 10; m_dst := 255; m_data := [60; 61; 62; 63; 64; 65; 66; 67; 68; 69]; m_tp := false |}.
-  split; [split; [reflexivity|repeat constructor]|]. split; [reflexivity|]. split; [reflexivity|]. split.
-  - intros f Hin. unfold wit_q in Hin. repeat (destruct Hin as [<-|Hin]; [vm_compute; auto|]). destruct Hin.
-  - split.
-    + exists (mkf wit_x [32; 10; 60; 61; 62; 63; 64; 65]), (mkf wit_x [33; 66; 67; 68; 69; 255; 255; 255]),
-        [mkf wit_x [0; 10; 0; 1; 2; 3; 4; 5]; mkf wit_k [0; 10; 20; 21; 22; 23; 24; 25]; mkf wit_x [1; 6; 7; 8; 9; 255; 255; 255]; mkf wit_k [32; 10; 40; 41; 42; 43; 44; 45]],
-        [mkf wit_k [33; 46; 47; 48; 49; 255; 255; 255]], [].
-      split; [reflexivity|]. split; [repeat split; vm_compute; reflexivity|]. split; [repeat split; vm_compute; congruence|].
-      split; [vm_compute; reflexivity|]. split; [vm_compute; reflexivity|].
-      intros g [<-|[]] (_ & A & _). vm_compute in A. discriminate.
-    + vm_compute. intros [H|[H|[]]]; discriminate.
-Qed.
+(* since the repair of FindFreeCANMsgIndex both messages of sender 10 are handed over (regression witness of finding 'complete-stale') *)
+Lemma wit_delivered :
+  fp_dlv (snd (rx_loop gf_none 20 wit_node)) =
+    [ {| m_pri := 3; m_pgn := 129029; m_src := 10; m_dst := 255; m_data := [0; 1; 2; 3; 4; 5; 6; 7; 8; 9]; m_tp := false |};
+      {| m_pri := 3; m_pgn := 129540; m_src := 11; m_dst := 255; m_data := [40; 41; 42; 43; 44; 45; 46; 47; 48; 49]; m_tp := false |};
+      {| m_pri := 3; m_pgn := 129029; m_src := 10; m_dst := 255; m_data := [60; 61; 62; 63; 64; 65; 66; 67; 68; 69]; m_tp := false |} ].
+Proof. vm_compute. reflexivity. Qed.
 
 (* ---------------- runs and sent messages ---------------- *)
 Lemma mkf_fields prio pgn src dst b : id_args_ok prio pgn src dst -> (pdu1 pgn = true -> pgn mod 256 = 0) ->
